@@ -185,7 +185,24 @@ func init() {
 	}
 	theory[pDec+"Add"] = decBin(Add)
 	theory[pDec+"Sub"] = decBin(Sub)
-	theory[pDec+"Mul"] = decBin(func(a, b *Term) *Term { return chopRound(Mul(a, b)) })
+	theory[pDec+"Mul"] = decBin(func(a, b *Term) *Term {
+		// (z * 10^18) * b / 10^18 is exact: no rounding takes place
+		for _, p := range [][2]*Term{{a, b}, {b, a}} {
+			u, v := p[0], p[1]
+			if u.kind == tApp && u.Op == "*" && len(u.Args) == 2 {
+				if u.Args[1].IsLit() && u.Args[1].Lit.Cmp(decOne) == 0 {
+					return Mul(u.Args[0], v)
+				}
+				if u.Args[0].IsLit() && u.Args[0].Lit.Cmp(decOne) == 0 {
+					return Mul(u.Args[1], v)
+				}
+			}
+			if u.IsLit() && new(big.Int).Mod(u.Lit, decOne).Sign() == 0 {
+				return Mul(BigLit(new(big.Int).Quo(u.Lit, decOne)), v)
+			}
+		}
+		return chopRound(Mul(a, b))
+	})
 	theory[pDec+"MulTruncate"] = decBin(func(a, b *Term) *Term { return chopTrunc(Mul(a, b)) })
 	theory[pDec+"MulInt"] = func(x *Exec, f *Frame, st *State, c *CallInfo) Val {
 		decNilCheck(x, f, st, c, c.T(0))
